@@ -35,7 +35,7 @@ def ref_instant(y, mo, d, h, mi, s, off):
     The day count is chrono_stub.days_from_civil, i.e. the same term the chrono stub builds: the date arithmetic is chrono's
     business (stubbed and pinned to the real library natively); what this reference fixes is which fields are combined how:
     instant = days*86400 + h*3600 + mi*60 + s - offset."""
-    secs, frac = chrono_stub.instant_of(y, mo, d, h, mi, s, off)
+    secs, frac = chrono_stub.instant_of(y, mo, d, h, mi, s, off, no_leap=True)   # seconds 00..59 (valid_civil)
     return secs
 
 
